@@ -144,6 +144,11 @@ def run(R):
             if op.startswith("FAULT"): pf = int(op.split(" ")[1]); continue
             if not op.startswith("CF "): continue
             f = fields(line)
+            # whatever path the region allocator took (huge pages, the regular-page retry, an injected refusal): when the call returns, every
+            # mapping it created is gone in full - the ledger records lengths, a partial munmap counts as a leak (seeded/C15g)
+            if f.get("badmunmap", "0") != "0" or (f.get("maps", "0") != "0" and not (f.get("fired") == "1" and pf is not None and int(f.get("allocs", 0)) == pf)):
+                bad.append((op + (" with request %d failing" % pf if pf else ""), "a mapping created during the call was not released in full (maps=%s, munmap with a wrong length: %s)"
+                            % (f.get("maps"), f.get("badmunmap")), line))
             if pf is None and f.get("fired") == "0": ref_out.setdefault(op, f.get("out"))
             if f.get("fired") == "1":
                 failed = f.get("ret") == "NULL" or f.get("out", "").startswith("2a")
